@@ -31,7 +31,7 @@ def floor(tier):
 
 
 def cases(tier, rng):
-    n = 90 if tier == "quick" else 2400
+    n = 90 if tier == "quick" else 9000
     out = []
     for i in range(n):
         mode = ["nc-exact", "nc-random", "cc"][i % 3]
